@@ -193,6 +193,15 @@ Theorem C19_ramp : forall m t d qt qd,
 Proof. exact DCMotorP.ramp_exact. Qed.
 Print Assumptions C19_ramp.
 
+(* "Linearly ramp": step k of a ramp is start + (target - start) * k / 20, exactly (the clamp inside
+   set_speed never bites, start and target being in [-1, 1]) *)
+Theorem C19_ramp_linear : forall m t d qt qd,
+  motor_inv m -> qof t = Some qt -> qof d = Some qd -> 0 <= qd ->
+  Forall2 Qeq (lvl_speeds (mevents (mstep m (MRamp t d))))
+              (map (fun k => speed m + (clampq qt - speed m) * inject_Z k / 20) (zsteps 20)).
+Proof. exact DCMotorP.ramp_linear. Qed.
+Print Assumptions C19_ramp_linear.
+
 (* run_for(d, v) from EVERY state, for every numeric speed and duration >= 0: applies the
    clamped speed, sleeps exactly once, exactly d, then brakes *)
 Theorem C19_run_for : forall m d v qd qv,
